@@ -15,7 +15,9 @@ mod gen_sched;
 mod prng;
 mod props_chain;
 mod props_fault;
+mod props_mclmc;
 mod props_sched;
+mod props_sched_adapt;
 mod sched;
 mod simmath;
 mod storesim;
